@@ -14,7 +14,8 @@ HIDDEN = 'hidden'    # passing, skipped, expected failure: output must never app
 @st.composite
 def cases(draw):
     spec = draw(gen.worlds(max_layers=3, min_layers=1, hooks='all', kinds=gen.ALL_KINDS, max_modules=2, depth=1,
-                           max_tests=5, weights_good=50, layer_decl=100, max_children=3, excs=gen.SIMPLE_EXCS))
+                           max_tests=5, weights_good=50, layer_decl=100, max_children=3, excs=gen.SIMPLE_EXCS,
+                           sub_skip=True))
     tokens = gen.add_outputs(draw, spec, prob=75)
     # in-test identity probes (meaningful without --buffer)
     for _, t in gen.iter_tests(spec):
